@@ -399,6 +399,11 @@ impl JobServer {
 
                     for fd in rfds.fds(None) {
                         if fd == self.params.token_fds.0 {
+                            if state.my_tokens >= 1 {
+                                // A child that exited during this same wake-up has
+                                // already given us a token; leave this one in the pipe.
+                                continue;
+                            }
                             let mut b: [u8; 1] = [0];
                             let read_result = try_read(self.params.token_fds.0, &mut b)
                                 .map_err(RedoError::opaque_error)?;
